@@ -32,6 +32,9 @@ var (
 	vfClockSlk    uint32
 	vfNative      = true
 	vfTierLevel   int
+	vfClockIsSet  bool
+	vfObserved    map[string]uint64
+	vfRandCalls   int
 )
 
 func vfLoadModel(path string) error {
@@ -45,7 +48,9 @@ func vfLoadModel(path string) error {
 	}
 	vfTierLevel = vfModel.Tier
 	vfFailures, vfAssumeFails, vfReached = nil, nil, nil
-	vfClockBase, vfClockReads, vfClockSlk = 0, 0, 0
+	vfClockBase, vfClockReads, vfClockSlk, vfClockIsSet = 0, 0, 0, false
+	vfObserved = map[string]uint64{}
+	vfRandCalls = 0
 	return nil
 }
 
@@ -121,13 +126,17 @@ func vfStop()              { panic(vfStopAbort{}) }
 
 func vfName(prefix string, i int) string { return fmt.Sprintf("%s%d", prefix, i) }
 
-func vfSetClock(ms uint32)  { vfClockBase = ms; vfClockReads = 0 }
+func vfSetClock(ms uint32)  { vfClockBase = ms; vfClockReads = 0; vfClockIsSet = true }
 func vfClockSlack(d uint32) { vfClockSlk = d }
 
 // vfNativeClock is what currentMs() returns in the native replay build (kcp.go is
 // overlaid with a copy whose currentMs calls this).
 func vfNativeClock() uint32 {
 	vfClockReads++
+	if !vfClockIsSet {
+		vfClockBase = uint32(vfVal("clock0"))
+		vfClockIsSet = true
+	}
 	if vfClockSlk == 0 {
 		return vfClockBase
 	}
@@ -135,7 +144,30 @@ func vfNativeClock() uint32 {
 }
 
 func vfPanicsOff()                  {}
-func vfObserve(label string, v int) {}
+
+// vfObserve records a value; gse evaluates the same term under the model and the
+// check compares the two (translator validation).
+func vfObserve(label string, v int) {
+	if _, dup := vfObserved[label]; !dup {
+		vfObserved[label] = uint64(v)
+	}
+}
+
+// vfRandReader feeds fillRand with the model's bytes (rand#<call>_<index>).
+type vfRandReader struct{}
+
+func (vfRandReader) Read(p []byte) (int, error) {
+	vfRandCalls++
+	for i := range p {
+		p[i] = byte(vfVal(fmt.Sprintf("rand#%d_%d", vfRandCalls, i)))
+	}
+	return len(p), nil
+}
+
+func vfNativeSetup() {
+	SetEntropy(vfRandReader{})
+}
+
 func vfTier() int                   { return vfTierLevel }
 
 func vfJournalStart() {}
